@@ -51,6 +51,8 @@ SizeClauses(e) ==
   IF e.saveexc THEN {"C11:save-raised-on-large-row-count"}
   ELSE If(Word(e.header, 8, 8) # PayloadLen(e.arity, e.n, e.iws, e.rws, e.rowcounts), "C11:size-field-large")
        \cup If(e.filelen # BAdd(<<16>>, PayloadLen(e.arity, e.n, e.iws, e.rws, e.rowcounts)), "C11:file-length-large")
+       \* a size field smaller than what was written lets the loader accept the file torn anywhere after 16 + size bytes
+       \cup If(BLess(BAdd(<<16>>, Word(e.header, 8, 8)), e.filelen), "C12:size-field-lets-a-prefix-pass")
 
 Clauses(e) ==
   CASE e.kind = "file" -> WriterClauses(e) \cup (IF e.saveexc THEN {} ELSE LoadClauses(e, "C10") \cup TornClauses(e))
